@@ -179,6 +179,10 @@ EXPRS = [
     "np.array([np.uint8(3), np.int16(300)])",
     "np.array([True, np.int64(2)])",
     "np.concatenate([np.array([1], dtype=np.int8), np.array([300], dtype=np.int16)])",
+    "np.repeat(np.array([5, 6, 7]), 2)",
+    "np.repeat(np.array([5, 6, 7]), np.array([2, 0, 1]))",
+    "np.repeat(2 * np.array([], dtype=int), 2)",
+    "np.repeat(np.array([[1, 2], [3, 4]]), 2)",
 ]
 
 RUNNER = r'''
